@@ -65,3 +65,18 @@ def near(x, thr, band=1e-7):
 
 __all__ = ["build_problem", "partition_class", "batch_choices", "threshold", "sweeps_needed",
            "draw_gamma_eps", "near", "refmdp", "gen"]
+
+
+def sibling_case(case, **override):
+    """A second generated problem of the SAME shapes (states, actions, events, vector dimensions, hence the same
+    batch layout and the same problem name) but other contents: other tables and a shifted / re-factored state
+    box.  Built and solved after the main case in the same process, it exposes state shared between instances."""
+    import copy
+
+    c = copy.deepcopy(case)
+    spec = c["spec"]
+    spec["gseed"] = int(spec["gseed"]) + 2            # same parity: same problem class
+    spec["origin"] = {0: 2, 1: 0, 2: -1, -1: 1}.get(int(spec.get("origin", 0)), 0)
+    c.update(override)
+    c["sibling"] = True
+    return c
